@@ -243,7 +243,8 @@ def _unambiguous_primal(
 
     problem.add_list_of_constraints(m | rho == 0 for (m, rho) in zip(measurements, unnormalized_dms))
 
-    problem.set_objective("min", picos.trace(sums_of_unnormalized_dms * inconclusive_measurement))
+    # The objective is real (a trace of a product of Hermitian operators) but is typed complex for complex states.
+    problem.set_objective("min", np.real(picos.trace(sums_of_unnormalized_dms * inconclusive_measurement)))
     solution = problem.solve(solver=solver, **kwargs)
 
     return solution.value, measurements + [inconclusive_measurement]
